@@ -77,6 +77,8 @@ type (
 	}
 	EIte  struct{ C, A, B Expr }
 	EIter struct{ X Expr }
+	// EEntry: value of X when the loop whose clause this is was entered
+	EEntry struct{ X Expr }
 )
 
 type Binder struct {
@@ -110,8 +112,9 @@ func (e *ECall) String() string {
 	}
 	return e.F + "(" + strings.Join(a, ", ") + ")"
 }
-func (e *EOld) String() string  { return "old(" + e.X.String() + ")" }
-func (e *EIter) String() string { return "iter(" + e.X.String() + ")" }
+func (e *EOld) String() string   { return "old(" + e.X.String() + ")" }
+func (e *EIter) String() string  { return "iter(" + e.X.String() + ")" }
+func (e *EEntry) String() string { return "entry(" + e.X.String() + ")" }
 func (e *EQuant) String() string {
 	q := "exists"
 	if e.Forall {
@@ -457,6 +460,12 @@ func (p *parser) primary() (Expr, error) {
 				}
 				return &EIter{args[0]}, nil
 			}
+			if t.s == "entry" {
+				if len(args) != 1 {
+					return nil, fmt.Errorf("entry takes one argument")
+				}
+				return &EEntry{args[0]}, nil
+			}
 			if t.s == "ite" {
 				if len(args) != 3 {
 					return nil, fmt.Errorf("ite takes three arguments")
@@ -771,10 +780,11 @@ func parseSpecText(src, pkg, file string, assumed bool) (*SpecFile, error) {
 		case "global":
 			// global PKGPATH.NAME nonnil   — assumed fact about an immutable package-level variable
 			n, t := firstWord(s.rest)
-			if !assumed || strings.TrimSpace(t) != "nonnil" {
-				return nil, errf(s.line, "global NAME nonnil (assumed files only)")
+			t = strings.TrimSpace(t)
+			if !assumed || (t != "nonnil" && t != "positive") {
+				return nil, errf(s.line, "global NAME nonnil|positive (assumed files only)")
 			}
-			sf.Defs = append(sf.Defs, &SpecDef{Kind: "global", Name: "global:" + n, Pkg: pkg, File: file, Line: s.line, Assumed: true})
+			sf.Defs = append(sf.Defs, &SpecDef{Kind: "global", Name: "global:" + n, Result: t, Pkg: pkg, File: file, Line: s.line, Assumed: true})
 			cur = nil
 		case "ghost":
 			n, t := firstWord(s.rest)
